@@ -140,7 +140,7 @@ def main():
     hooks = subprocess.run(["git", "-C", "/repo", "log", "--format=%H %s"], capture_output=True, text=True).stdout.splitlines()
     m = {
         "version": 1,
-        "setup_cmd": "cd /verif/harness && cp /repo/go.sum . && %s go build -tags verif -o /dev/null ./cmd/vh && for m in MC_C01types MC_C01macro MC_C06 MC_C10sites MC_C17docs MC_C02 MC_C03 MC_C04 MC_C07 MC_C08 MC_C08doc MC_C09 MC_C10 MC_C10cyc MC_C11 MC_C12 MC_C13 MC_C14 MC_C15 MC_C16 MC_C17 MC_C19 MC_Desc Conc Trace_C05 Trace_C11 Trace_C18 Trace_Scan; do (cd /verif/spec && tla-sany $m.tla >/dev/null) || exit 1; done" % GO,
+        "setup_cmd": "cd /verif/harness && cp /repo/go.sum . && %s go build -tags verif -o /dev/null ./cmd/vh && for m in MC_C01types MC_C01macro MC_C06 MC_C10sites MC_C17docs MC_C02 MC_C03 MC_C04 MC_C07 MC_C08 MC_C08doc MC_C09 MC_C10 MC_C10cyc MC_C11 MC_C12 MC_C13 MC_C14 MC_C15 MC_C16 MC_C17 MC_C19 MC_Desc Conc Trace_C05 Trace_C11 Trace_C18 Trace_Scan MC_IncRand MC_C10nest; do (cd /verif/spec && tla-sany $m.tla >/dev/null) || exit 1; done" % GO,
         "hooks": {
             "guard": "verif",
             "enable": "go build -tags verif (the harness module /verif/harness replaces github.com/jsightapi/jsight-api-core with /repo)",
